@@ -340,6 +340,7 @@ def run(ctx):
     _sh.requires_read_with_defaults(ctx, r9)
     _sh.upstream_states_are_completed_states(ctx, r9)
     _sh.filters_never_dropped(ctx, r9)
+    _sh.rerun_keeps_triggered_by(ctx, r9)
     r10 = ctx.rule('R10', 'cached publish spec objects are only extended '
                    'with content of their own scope', 'ownership/dataflow')
     shared_publish_specs(ctx, r10)
